@@ -401,6 +401,7 @@ func modelEq(c *vh.Ctx) {
 				}
 			}
 			s.e.WaitReconnectingZero(2 * time.Second)
+			s.e.WaitSettled(2 * time.Second)
 			s.e.Snapshot(true)
 			acts := "open up sel " +
 				"en 0 0 b1 0 rg 0 cp 0 ck 0 wo 0 ar 0 ps 0 reply 0 rd 0 rt 0 cr 0 " +
@@ -429,6 +430,7 @@ func modelEq(c *vh.Ctx) {
 			cl.Wait(5 * time.Second)
 			c2 := s.e.Start(genx.KSyncW, context.Background())
 			c2.Wait(5 * time.Second)
+			s.e.WaitSettled(2 * time.Second)
 			s.e.Snapshot(true)
 			acts := "open up sel en 0 0 b1 0 rg 0 cp 0 drop lsp td join 0 lbeg pub up sel lend 1 ck 0 " +
 				"en 1 0 b1 1 rg 1 cp 1 ck 1 wo 1 ar 1 ps 1 reply 1 rd 1 rt 1 cr 1 snap"
